@@ -490,8 +490,13 @@ func Menagerie(r *rand.Rand) *model.Schema {
 	un := &model.TypeDef{Kind: model.Union, Name: "Pet"}
 	for i, nm := range names {
 		ot := &model.TypeDef{Kind: model.Object, Name: nm, Interfaces: []string{"Animal"}}
+		nameField := &model.FieldDef{Name: "name", Type: model.Named("String")}
+		if i == 0 {
+			// an implementer may add optional arguments to an interface field: only this type's `name` takes `limit`
+			nameField.Args = []*model.ArgDef{{Name: "limit", Type: model.Named("Int")}}
+		}
 		ot.Fields = append(ot.Fields,
-			&model.FieldDef{Name: "name", Type: model.Named("String")},
+			nameField,
 			&model.FieldDef{Name: "friend", Type: model.Named(nm)},                   // covariant: own type
 			&model.FieldDef{Name: "pals", Type: model.ListOf(model.Named("Animal"))}, // stays abstract
 		)
